@@ -35,6 +35,7 @@ type SpecEnv struct {
 	// when evaluating at a call site, fresh(x) in ensures is an assumption
 	mode string // "assume" | "prove"
 	freshBase int64 // regions > freshBase are "allocated during the call"
+	loopEntry *State // state when the enclosing loop was entered (entry(e))
 }
 
 type specErr struct{ msg string }
@@ -591,6 +592,12 @@ func (e *SpecEnv) evalIndex(n *Node) TV {
 		if ar, ok := u.Elem().Underlying().(*types.Array); ok {
 			return TV{V: e.st.Load(ar.Elem(), ElemAddr(x.V.(*Term), i)), T: ar.Elem()}
 		}
+	case *types.Tuple:
+		if !i.IsConst() {
+			sfail("tuple index must be constant")
+		}
+		k := int(i.Val.Int64())
+		return TV{V: x.V.(*TupleV).Elems[k], T: u.At(k).Type()}
 	case *types.Map:
 		kv := e.eval(n.Args[1])
 		if kv.U != nil {
@@ -712,6 +719,27 @@ func (e *SpecEnv) evalCall(n *Node) TV {
 		n2 := *e
 		n2.st = e.old
 		return n2.eval(args[0])
+	case "entry":
+		if e.loopEntry == nil {
+			sfail("entry() outside a loop clause")
+		}
+		n2 := *e
+		n2.st = e.loopEntry
+		return n2.eval(args[0])
+	case "callres":
+		// callres("callee", k): results of the k-th call of that function on this path
+		if len(args) != 2 || args[0].Kind != "str" {
+			sfail("callres(\"callee\", k)")
+		}
+		k := e.eval(args[1])
+		if k.U == nil {
+			sfail("callres: constant index expected")
+		}
+		log := e.st.callLog[args[0].Name]
+		if int(k.U.Int64()) >= len(log) {
+			sfail("callres: %s was called only %d times on this path", args[0].Name, len(log))
+		}
+		return log[k.U.Int64()]
 	case "ite":
 		c := e.eval(args[0]).V.(*Term)
 		a, b := e.unify(e.eval(args[1]), e.eval(args[2]))
